@@ -6,26 +6,65 @@ Driver glue for C51.  Bytes in hex (`-` empty).
   `C51 run <files> <keys> <proc>/<proc>/…`
       files : initial directory (`Fs/Wire` state syntax)
       keys  : `,`-joined universe of keys to report (`.` = none)
-      proc  : `<ops>@<cut>`; ops = `;`-joined `s:<key>:<value>` | `d:<key>` (`.` = none); cut = `k:p` | `-`
+      proc  : `<ops>@<cut>`; ops = `;`-joined (`.` = none); cut = `k:p` | `-`
+              `s:<key>:<value>` set | `d:<key>` delete | `sd:<key>:<value>` setdefault |
+              `f:<key>:<value>:<p>:<Exc>` a set whose write raises `Exc` after `p` bytes (the process lives on) |
+              `u:<key>:<value>+<key>:<value>+…` update | `c` clear
     every process first opens the database (recovery), then performs its ops, and is killed at its cut
     (counted from the first primitive of the process).  After the last process the database is opened
     once more, uncut.
   → `<files>|<key>=<value or ~>,…|<results of process 1>/<results of process 2>/…`
-    results: per op `ok` | `KeyError` | `crash` (the op the cut fell in; later ops are not run), `,`-joined, `.` = none
+    results: per op `ok` | `KeyError` | `fail:<Exc>` | `crash` (the op the cut fell in; later ops are not run),
+    `,`-joined, `.` = none
 -/
 namespace Twisted.Drv.C51
 open Twisted.Fs Twisted.Fs.Wire Twisted.Fs.DirDbm Twisted.Py
 
-def readOp (s : String) : Option Op :=
+/-- the operations of the line protocol (`Op` of the model + the other mutating entry points) -/
+inductive DOp where
+  | op (o : Op)
+  | sd (k v : Fs.Bytes)
+  | fail (k v : Fs.Bytes) (p : Nat) (exc : String)
+  | upd (kvs : List (Fs.Bytes × Fs.Bytes))
+  | clear
+
+def readKV (k v : String) : Option (Fs.Bytes × Fs.Bytes) := do
+  let k ← unhex k
+  let v ← unhex v
+  pure (k, v)
+
+def readOp (s : String) : Option DOp :=
+  if s = "c" then some .clear else
   match s.splitOn ":" with
-  | ["s", k, v] => do
-      let k ← unhex k
-      let v ← unhex v
-      pure (Op.set k v)
-  | ["d", k] => (unhex k).map Op.del
+  | ["s", k, v] => (readKV k v).map fun kv => .op (Op.set kv.1 kv.2)
+  | ["d", k] => (unhex k).map fun k => .op (Op.del k)
+  | ["sd", k, v] => (readKV k v).map fun kv => .sd kv.1 kv.2
+  | ["f", k, v, p, exc] => do
+      let kv ← readKV k v
+      let p ← p.toNat?
+      if exc.isEmpty then none else pure (.fail kv.1 kv.2 p exc)
+  | "u" :: rest =>
+      if rest.isEmpty then none else
+      let items := (":".intercalate rest).splitOn "+"
+      (items.mapM fun (it : String) => match it.splitOn ":" with
+        | [k, v] => readKV k v
+        | _ => none).map .upd
   | _ => none
 
-def readProc (s : String) : Option (List Op × Option (Nat × Nat)) :=
+def dopTrace (fs : Fs) : DOp → List Prim
+  | .op o => opTrace fs o
+  | .sd k v => setdefaultTrace fs k v
+  | .fail k v p _ => if v.isEmpty then setTrace fs k v else setFailTrace fs k v p
+  | .upd kvs => updateTrace fs kvs
+  | .clear => clearTrace fs
+
+/-- result of an operation that ran to its end -/
+def dopDone (tr : List Prim) : DOp → String
+  | .op (.del _) => if tr.isEmpty then "KeyError" else "ok"
+  | .fail _ v _ exc => if v.isEmpty then "ok" else "fail:" ++ exc
+  | _ => "ok"
+
+def readProc (s : String) : Option (List DOp × Option (Nat × Nat)) :=
   match s.splitOn "@" with
   | [ops, cut] => do
       let ops ← if ops = "." then some [] else (ops.splitOn ";").mapM readOp
@@ -34,25 +73,21 @@ def readProc (s : String) : Option (List Op × Option (Nat × Nat)) :=
   | _ => none
 
 /-- one process: recovery, then ops; returns the surviving filesystem and the per-op results -/
-def runProc (fs0 : Fs) (ops : List Op) (cut : Option (Nat × Nat)) : Fs × List String :=
+def runProc (fs0 : Fs) (ops : List DOp) (cut : Option (Nat × Nat)) : Fs × List String :=
   let limit : Nat := match cut with | none => 1000000000 | some (k, _) => k
   let p : Nat := match cut with | none => 0 | some (_, p) => p
   -- recovery
   let rt := recoverTrace fs0
   if limit < rt.length then (crashAt rt limit p fs0, []) else
-  let rec go (fs : Fs) (done : Nat) (ops : List Op) (acc : List String) : Fs × List String :=
+  let rec go (fs : Fs) (done : Nat) (ops : List DOp) (acc : List String) : Fs × List String :=
     match ops with
     | [] => (fs, acc.reverse)
     | op :: rest =>
-      let tr := opTrace fs op
-      if tr.isEmpty then
-        let r := match op with
-          | .del _ => "KeyError"
-          | .set _ _ => "ok"
-        go fs done rest (r :: acc)
+      let tr := dopTrace fs op
+      if tr.isEmpty then go fs done rest (dopDone tr op :: acc)
       else if limit < done + tr.length then
         (crashAt tr (limit - done) p fs, ("crash" :: acc).reverse)
-      else go (run tr fs) (done + tr.length) rest ("ok" :: acc)
+      else go (run tr fs) (done + tr.length) rest (dopDone tr op :: acc)
   go (run rt fs0) rt.length ops []
 
 def showResults (rs : List String) : String := if rs.isEmpty then "." else ",".intercalate rs
@@ -66,7 +101,7 @@ def handle (args : List String) : String :=
     match readFs files, (if keys = "." then some [] else (keys.splitOn ",").mapM unhex),
           (procs.splitOn "/").mapM readProc with
     | some fs0, some keys, some procs =>
-      let (fs, results) := procs.foldl (fun (acc : Fs × List String) (pr : List Op × Option (Nat × Nat)) =>
+      let (fs, results) := procs.foldl (fun (acc : Fs × List String) (pr : List DOp × Option (Nat × Nat)) =>
         let (fs', rs) := runProc acc.1 pr.1 pr.2
         (fs', acc.2 ++ [showResults rs])) (fs0, [])
       let fs := run (recoverTrace fs) fs
